@@ -202,7 +202,7 @@ pub fn gen_arith(rng: &mut Rng) -> Op {
         14 => Op::new(&format!("{}.root", t)).a(a).dst(d).n(1 + rng.below(5) as i64),
         15 => Op::new(&format!("{}.gcd", t)).a(a).b(b).dst(d).form(form(rng)),
         16 => Op::new(&format!("{}.gcdext", t)).a(a).b(b).dst(d).form(form(rng)),
-        17 => Op::new(&format!("{}.sum", t)).dst(d).form(rng.below(4)),
+        17 => Op::new(&format!("{}.sum", t)).dst(d).form(rng.below(6)),
         18 => Op::new(rng.pick(&["i.neg", "i.abs", "i.uabs", "i.not", "i.signum", "u.neg", "u.sqrtrem", "u.cbrt", "i.cbrt"]))
             .a(a)
             .dst(d)
@@ -285,18 +285,23 @@ pub fn gen_query(rng: &mut Rng, faults: bool) -> Op {
 }
 
 pub fn gen_mod(rng: &mut Rng) -> Op {
-    let name = match rng.below(14) {
+    let name = match rng.below(18) {
         0 => "m.ring2",
         1 | 2 => "m.divisor",
         3 | 4 => "m.half",
         10 | 11 => "m.udr",
         12 | 13 => "m.idr",
+        14 | 15 | 16 => "m.rop",
+        17 => "m.reduce",
         _ => "m.ring",
     };
-    if name == "m.udr" || name == "m.idr" {
+    if name == "m.udr" || name == "m.idr" || name == "m.rop" || name == "m.reduce" {
         // quotient and remainder by a ConstDivisor in every call form; the divisor is a boundary shape most of the time
         // (no normalisation shift, all ones, just below a word boundary, one / two / three words)
-        let mut op = Op::new(name).a(slot(rng)).b(slot(rng)).c(slot(rng)).dst(slot(rng)).n(rng.below(4) as i64).m(rng.below(200) as i64).form(rng.below(8));
+        let mut op = Op::new(name).a(slot(rng)).b(slot(rng)).c(slot(rng)).dst(slot(rng)).n(rng.below(if name == "m.rop" { 5 } else { 4 }) as i64).m(rng.below(200) as i64).form(rng.below(8));
+        if name == "m.reduce" {
+            op = op.m(prim_value(rng).0);
+        }
         if rng.chance(3, 4) {
             let words = 1 + rng.below(3) as usize;
             let mut v = vec![0u8; 8 * words];
@@ -364,7 +369,7 @@ pub fn gen_mixed(rng: &mut Rng) -> Op {
         _ => {
             let fam = if rng.chance(1, 2) { "up" } else { "ip" };
             let (n, m) = prim_value(rng);
-            Op::new(&format!("{}.{}", fam, rng.pick(&BIN))).a(a).dst(d).n(n).m(m).form(rng.below(12) * 16 + rng.below(12))
+            Op::new(&format!("{}.{}", fam, rng.pick(&["add", "sub", "mul", "div", "rem", "and", "or", "xor", "divrem"]))).a(a).dst(d).n(n).m(m).form(rng.below(12) * 16 + rng.below(12))
         }
     }
 }
